@@ -45,6 +45,7 @@ type valt struct {
 
 type vslot struct {
 	path      string // e.g. Blocks[s3][4].Records.RecordBatch.Records[0].Key
+	owner     string // struct type and field the slot belongs to, e.g. Record.Key
 	kind      string
 	v         reflect.Value // settable holder
 	commit    func()        // propagates a change to enclosing map values (no-op elsewhere)
@@ -58,7 +59,64 @@ type vgen struct {
 	ctr   int
 	slots []*vslot
 	depth map[string]int
+	root  string // name of the root type
+	owner string // Type.Field currently being walked
 }
+
+// vrule: a restriction of the input domain, each with the reason why the excluded value is outside what
+// the codec is meant to represent (listed in the evidence). root/alts: "|"-separated, "" = any.
+type vrule struct {
+	Root, PathSuffix, Alts, Why string
+}
+
+var vdomainRules = []vrule{
+	{"ProduceRequest|Records", ".MsgSet.Messages", "nil|empty",
+		"an empty legacy message set occupies zero bytes; Records.decode needs the magic byte at offset 16 to tell the format, so the Records union cannot represent it (FetchResponseBlock.decode tests remaining()>0 before calling it)"},
+	{"FetchResponse", ".RecordBatch.Records", "nil|empty",
+		"FetchResponseBlock.decode deliberately keeps only record sets with ≥1 record (fetch_response.go: `if n > 0 || (partial && len(b.RecordsSet) == 0)`), so an empty batch is dropped by design"},
+	{"OffsetRequest", "replicaID", "-1|min",
+		"replica ids are ≥0; -1 is the wire sentinel for 'not a replica' (decode leaves the id unset for negative values)"},
+	{"AlterUserScramCredentialsRequest", ".Iterations", "max",
+		"encode runs PBKDF2 with that many rounds by design (2^31 rounds take minutes); Kafka limits iterations to 4096..16384"},
+}
+
+func (g *vgen) excluded(path, alt string) bool {
+	np := vslotPathNorm(path)
+	for _, r := range vdomainRules {
+		if r.Root != "" && !vinList(r.Root, g.root) {
+			continue
+		}
+		if !strings.HasSuffix(np, r.PathSuffix) {
+			continue
+		}
+		if r.Alts == "" || vinList(r.Alts, alt) {
+			return true
+		}
+	}
+	return false
+}
+
+func vinList(list, x string) bool {
+	for _, e := range strings.Split(list, "|") {
+		if e == x {
+			return true
+		}
+	}
+	return false
+}
+
+// base-value overrides: fields whose legal domain does not contain the counter value
+var vbaseOverride = map[string]func(v reflect.Value){
+	"AlterUserScramCredentialsUpsert.Mechanism": func(v reflect.Value) { v.SetInt(int64(SCRAM_MECHANISM_SHA_256)) },
+	"AlterUserScramCredentialsDelete.Mechanism": func(v reflect.Value) { v.SetInt(int64(SCRAM_MECHANISM_SHA_512)) },
+	"OffsetFetchRequest.RequireStable":          func(v reflect.Value) { v.SetBool(false) }, // true is only encodable in v7
+	"JoinGroupRequest.GroupProtocols":           func(v reflect.Value) { v.Set(reflect.Zero(v.Type())) }, // deprecated twin of OrderedGroupProtocols; both set is rejected
+	"VerifRespHeader.Length":                    func(v reflect.Value) { v.SetInt(100) },
+}
+
+// Go int-kinded enums that travel as int8
+var vint8Types = map[string]bool{"AclOperation": true, "AclPermissionType": true, "AclResourceType": true, "AclResourcePatternType": true}
+
 
 // fields that are never slots: configuration axes, codec scratch state, decode-side aliases
 var vskip = map[string]string{
@@ -183,13 +241,16 @@ func (g *vgen) fillStruct(v reflect.Value) {
 		if _, skip := vskip[name+"."+f.Name]; skip {
 			continue
 		}
-		if f.Name == "Version" {
+		if f.Name == "Version" && !vversionIsData[name] {
 			continue // version axis: set by the family (top level) or by sarama's encode (nested)
 		}
 		if t == vtMessage && f.Name == "Value" && g.cfg.Codec != CompressionNone && g.depth["Message"] == 1 {
 			continue // compressed wrapper: Value is derived from Set by vfinalize
 		}
 		g.fill(vsettable(v.Field(i)), name+"."+f.Name)
+		if o := vbaseOverride[name+"."+f.Name]; o != nil {
+			o(vsettable(v.Field(i)))
+		}
 	}
 	switch t {
 	case vtBatch:
@@ -299,10 +360,17 @@ func vvisit(v reflect.Value, fn func(reflect.Value)) {
 // ---- slot collection ----
 
 func (g *vgen) addSlot(s *vslot) {
+	s.owner = g.owner
+	if strings.HasPrefix(s.kind, "key-") {
+		s.owner += "<key>"
+	}
 	// drop alternatives equal to the base value
 	base := vdump(s.v, false)
 	out := s.alts[:0]
 	for _, a := range s.alts {
+		if g.excluded(s.path, a.name) {
+			continue
+		}
 		if vdump(a.val, false) != base {
 			out = append(out, a)
 		}
@@ -317,7 +385,11 @@ func vconv(t reflect.Type, x interface{}) reflect.Value { return reflect.ValueOf
 
 func vintAlts(t reflect.Type) []valt {
 	var lo, hi int64
-	switch t.Kind() {
+	k := t.Kind()
+	if vint8Types[t.Name()] {
+		k = reflect.Int8
+	}
+	switch k {
 	case reflect.Int8:
 		lo, hi = math.MinInt8, math.MaxInt8
 	case reflect.Int16:
@@ -386,7 +458,7 @@ func (g *vgen) walk(v reflect.Value, path string, commit func(), inRec bool) {
 			return
 		}
 		if t.Elem() == vtBroker {
-			g.walkBroker(v, path, commit)
+			g.walkBroker(v, path, commit, !strings.HasSuffix(path, "]"))
 			return
 		}
 		if !v.IsNil() {
@@ -407,26 +479,39 @@ func (g *vgen) walk(v reflect.Value, path string, commit func(), inRec bool) {
 		}
 		// the collection itself
 		two := reflect.MakeSlice(t, 2, 2)
-		two.Index(0).Set(v.Index(0))
+		one := reflect.MakeSlice(t, 1, 1)
+		if v.Len() > 0 {
+			two.Index(0).Set(v.Index(0))
+		} else {
+			g.fill(two.Index(0), path)
+		}
+		one.Index(0).Set(two.Index(0))
 		g.fill(two.Index(1), path)
 		g.addSlot(&vslot{path: path, kind: "slice", v: v, commit: commit, inRecords: inRec, alts: []valt{
-			{"nil", reflect.Zero(t), true}, {"empty", reflect.MakeSlice(t, 0, 0), true}, {"2", two, true}}})
+			{"nil", reflect.Zero(t), true}, {"empty", reflect.MakeSlice(t, 0, 0), true}, {"1", one, true}, {"2", two, true}}})
 		for i := 0; i < v.Len(); i++ {
 			g.walk(v.Index(i), fmt.Sprintf("%s[%d]", path, i), commit, inRec)
 		}
 	case reflect.Map:
 		keys := vsortedKeys(v)
 		two := reflect.MakeMap(t)
+		one := reflect.MakeMap(t)
 		for _, k := range keys {
 			two.SetMapIndex(k, v.MapIndex(k))
+			one.SetMapIndex(k, v.MapIndex(k))
 		}
-		k2 := reflect.New(t.Key()).Elem()
-		g.fill(k2, path)
-		e2 := reflect.New(t.Elem()).Elem()
-		g.fill(e2, path)
-		two.SetMapIndex(k2, e2)
+		for two.Len() < 2 {
+			k2 := reflect.New(t.Key()).Elem()
+			g.fill(k2, path)
+			e2 := reflect.New(t.Elem()).Elem()
+			g.fill(e2, path)
+			two.SetMapIndex(k2, e2)
+			if one.Len() == 0 {
+				one.SetMapIndex(k2, e2)
+			}
+		}
 		g.addSlot(&vslot{path: path, kind: "map", v: v, commit: commit, inRecords: inRec, alts: []valt{
-			{"nil", reflect.Zero(t), true}, {"empty", reflect.MakeMap(t), true}, {"2", two, true}}})
+			{"nil", reflect.Zero(t), true}, {"empty", reflect.MakeMap(t), true}, {"1", one, true}, {"2", two, true}}})
 		for _, k := range keys {
 			k := k
 			m := v
@@ -459,15 +544,22 @@ func (g *vgen) walk(v reflect.Value, path string, commit func(), inRec bool) {
 	}
 }
 
-func (g *vgen) walkBroker(v reflect.Value, path string, commit func()) {
+func (g *vgen) walkBroker(v reflect.Value, path string, commit func(), nilOK bool) {
 	t := v.Type()
-	g.addSlot(&vslot{path: path, kind: "ptr", v: v, commit: commit, alts: []valt{{"nil", reflect.Zero(t), true}}})
+	if nilOK { // a field (FindCoordinatorResponse.Coordinator), not an element of a broker list
+		g.addSlot(&vslot{path: path, kind: "ptr", v: v, commit: commit, alts: []valt{{"nil", reflect.Zero(t), true}}})
+	}
 	if v.IsNil() {
 		return
 	}
 	b := v.Interface().(*Broker)
+	saved := g.owner
+	defer func() { g.owner = saved }()
+	g.owner = "Broker.id"
 	g.walk(reflect.ValueOf(&b.id).Elem(), path+".id", commit, false)
+	g.owner = "Broker.rack"
 	g.walk(reflect.ValueOf(&b.rack).Elem(), path+".rack", commit, false)
+	g.owner = "Broker.addr"
 	host := strings.SplitN(b.addr, ":", 2)[0]
 	st := reflect.TypeOf("")
 	var alts []valt
@@ -506,12 +598,14 @@ func (g *vgen) walkStruct(v reflect.Value, path string, commit func(), inRec boo
 			if t == vtMessage && f.Name == "Set" {
 				m := v.Addr().Interface().(*Message)
 				if m.Set != nil {
+					g.depth["Message"]++ // values created inside the inner set are plain messages
 					g.walkStruct(reflect.ValueOf(m.Set).Elem(), path+".Set", commit, true)
+					g.depth["Message"]--
 				}
 			}
 			continue
 		}
-		if f.Name == "Version" {
+		if f.Name == "Version" && !vversionIsData[name] {
 			continue
 		}
 		if t == vtMessage && f.Name == "Value" {
@@ -524,7 +618,12 @@ func (g *vgen) walkStruct(v reflect.Value, path string, commit func(), inRec boo
 			p = path + "." + f.Name
 		}
 		n0 := len(g.slots)
+		saved := g.owner
+		if k := f.Type.Kind(); !(k == reflect.Struct && f.Type != vtTime) && !(k == reflect.Ptr && f.Type.Elem().Kind() == reflect.Struct && f.Type.Elem() != vtBroker) {
+			g.owner = name + "." + f.Name
+		}
 		g.walk(vsettable(v.Field(i)), p, commit, inRec)
+		g.owner = saved
 		if vderived[name+"."+f.Name] {
 			for _, s := range g.slots[n0:] {
 				s.derived = true
@@ -533,12 +632,17 @@ func (g *vgen) walkStruct(v reflect.Value, path string, commit func(), inRec boo
 	}
 }
 
+// types whose Version field is an ordinary wire field (written and read as data)
+var vversionIsData = map[string]bool{"ConsumerGroupMemberMetadata": true, "ConsumerGroupMemberAssignment": true}
+
 // decode-side flags and helper fields that are not transmitted
 var vderived = map[string]bool{
 	"RecordBatch.PartialTrailingRecord": true,
 	"MessageSet.PartialTrailingMessage": true,
 	"MessageSet.OverflowMessage":        true,
 	"FetchResponseBlock.Partial":        true,
+	// alter_user_scram_credentials_request.go: "This field is never transmitted over the wire" (its salted hash is)
+	"AlterUserScramCredentialsUpsert.Password": true,
 }
 
 func vsortedKeys(m reflect.Value) []reflect.Value {
@@ -559,7 +663,7 @@ func vkeyLess(a, b reflect.Value) bool {
 
 // vbuild returns a fresh base value (pointer to t) and its slots.
 func vbuild(t reflect.Type, cfg vcfg, prepare func(root reflect.Value)) (reflect.Value, []*vslot) {
-	g := &vgen{cfg: cfg, depth: map[string]int{}}
+	g := &vgen{cfg: cfg, depth: map[string]int{}, root: t.Name()}
 	root := reflect.New(t)
 	g.fillStruct(root.Elem())
 	if prepare != nil {
